@@ -2846,7 +2846,8 @@ fn apply_relocation<
     relax_deltas: Option<&SectionRelaxDeltas>,
 ) -> Result<RelocationModifier> {
     let section_address = section_info.section_address;
-    let original_place = section_address + offset_in_section;
+    // An out-of-range offset gets reported when we try to write the relocation.
+    let original_place = section_address.wrapping_add(offset_in_section);
     let _span = tracing::trace_span!(
         "relocation",
         address = original_place,
@@ -2899,7 +2900,7 @@ fn apply_relocation<
 
     // Compute place to which IP-relative relocations will be relative. This is different to
     // `original_place` in that our `offset_in_section` may have been adjusted by a relaxation.
-    let place = section_address + offset_in_section;
+    let place = section_address.wrapping_add(offset_in_section);
 
     let mask = get_page_mask(rel_info.mask);
     let bias = rel_info.bias;
